@@ -157,17 +157,8 @@ Print Assumptions c06_arpa_listed_entries.
 (* ---------- non-vacuity ---------------------------------------------------------------------------- *)
 
 (* an order-3 table with missing suffixes and an out-of-vocabulary start symbol, and the
-   buffers the implementation builds for it, meet the hypotheses of the theorems above *)
-Definition ex_tab : tab :=
-  [([0], (Fin (-8), Fin (-4))); ([1], (Fin (-16), Fin (-2)));
-   ([0; 1], (Fin (-4), Fin (-1))); ([1; 1], (Fin (-6), Fin 0));
-   ([2; 0; 1], (Fin (-2), Fin 0)); ([0; 1; 1], (Fin (-12), Fin 0)); ([1; 2; 0], (Fin (-24), Fin 0))].
-Definition ex_sh : shape := mkShape 3 5 3 3 2.
-Definition ex_bufs : bufs :=
-  mkBufs [5; 5; 6; 5; 4; 4; 4; 4; 4] [2; 0; 1; 0; 1; 2; 0]
-         [Fin (-8); Fin (-16); NInf; NInf; NaN; NInf; Fin (-4); Fin (-6); NaN; Fin (-24); Fin (-2); Fin (-12)]
-         [Fin (-4); Fin (-2); Fin 0; Fin 0; NaN; Fin 0; Fin (-1); Fin 0; NaN].
-
+   buffers the implementation builds for it (ex_tab, ex_sh, ex_bufs: end of Spec.v), meet the
+   hypotheses of the theorems above *)
 Example c06_nonvacuous :
   trie_okb ex_bufs ex_sh (tmap ex_sh ex_tab) = true /\
   tab_okb 3 5 ex_tab = true /\
@@ -188,7 +179,7 @@ Proof.
   - repeat (first [apply Forall_nil | apply Forall_cons]); unfold tok_ok; cbn; lia.
 Qed.
 
-Example c06_nonvacuous_arpa :
+Example c06_arpa_nonvacuous :
   let secs := [[mkEntry (-8) [0] (Some (None, -4)); mkEntry (-16) [1] None];
                [mkEntry (-4) [0; 1] None; mkEntry (-6) [1; 1] None]] in
   let ls := [LOther; LBlank; LData; LCount 1 2; LCount 2 2; LBlank; LHeader 1;
